@@ -162,9 +162,23 @@ Proof.
     + rewrite !inits_cons. cbn [app]. rewrite !app_nil_r. reflexivity.
 Qed.
 
-Lemma init_ok_R id k st a : R st a ->
-  exists st', (st2 <- on_driver_init id k st ;; Ok (set_active st2 (h_active st2 ++ [id]))) = Ok st' /\
-              R st' (abs_init_ok id k a) /\ same_calls st st'.
+Lemma console_setup_facts id p st :
+  let st' := console_setup id p st in
+  h_ring st' = h_ring st /\ h_sink st' = h_sink st /\ h_console st' = h_console st /\ h_tty st' = h_tty st /\
+  h_active st' = h_active st /\ h_numbuf st' = h_numbuf st /\ same_calls st st' /\
+  (forall o, other_tty_bytes o (h_trace st') = other_tty_bytes o (h_trace st)) /\
+  attaches (h_trace st') = attaches (h_trace st) /\ states (h_trace st') = states (h_trace st).
+Proof.
+  unfold console_setup, same_calls.
+  destruct (p_logo p && negb (h_logo_off st)); destruct (p_font p);
+    cbn [log_event h_ring h_sink h_console h_tty h_active h_numbuf h_trace];
+    repeat split; try reflexivity; intros;
+    rewrite ?probes_cons, ?inits_cons, ?other_cons, ?attaches_cons, ?states_cons; cbn [app]; rewrite ?app_nil_r; reflexivity.
+Qed.
+
+Lemma init_ok_R id p st a : R st a ->
+  exists st', (st2 <- on_driver_init id p st ;; Ok (set_active st2 (h_active st2 ++ [id]))) = Ok st' /\
+              R st' (abs_init_ok id (p_kind p) a) /\ same_calls st st'.
 Proof.
   intros (Hv & Hl & Hnb & Hc & Ht & Hact & Hm).
   assert (Hsame : forall a', a_console a' = a_console a -> a_tty a' = a_tty a -> a_early a' = a_early a ->
@@ -173,24 +187,36 @@ Proof.
   { intros a' E1 E2 E3 E4 E5 E6. unfold R.
     cbn [set_active h_ring h_numbuf h_console h_tty h_active h_sink h_trace].
     rewrite E1, E2, E3, E4, E5, E6, Hact. repeat split; try assumption; try (destruct Hv; assumption). }
-  destruct k; unfold on_driver_init, abs_init_ok.
+  unfold on_driver_init, abs_init_ok. destruct (p_kind p).
   - (* console *)
     rewrite Hc. destruct (a_console a) as [c|] eqn:Ec.
     + cbn [bind]. eexists. split; [reflexivity|]. split; [|split; reflexivity]. apply Hsame; cbn; congruence.
     + destruct Hm as (Hs & Hcont & Hlat & Ho & Hat & Hst).
-      cbn [set_console h_tty]. rewrite Ht. destruct (a_tty a) as [t|] eqn:Et.
-      * destruct (link_spec (set_console st (Some id)) t id (lastn capacity (a_early a)) Hv Ht eq_refl Hcont Ho Hat Hst)
+      destruct (console_setup_facts id p (set_console st (Some id))) as (F1 & F2 & F3 & F4 & F5 & F6 & F7 & F8 & F9 & F10).
+      set (stc := console_setup id p (set_console st (Some id))) in *.
+      cbn [set_console h_ring h_sink h_console h_tty h_active h_numbuf h_trace] in F1, F2, F3, F4, F5, F6, F8, F9, F10.
+      assert (F7' : same_calls st stc) by exact F7.
+      rewrite F4, Ht. destruct (a_tty a) as [t|] eqn:Et.
+      * assert (Hvc : valid (h_ring stc)) by (rewrite F1; exact Hv).
+        assert (Htc : h_tty stc = Some t) by (rewrite F4; exact Ht).
+        assert (Hcc : contents (h_ring stc) = lastn capacity (a_early a)) by (rewrite F1; exact Hcont).
+        assert (Hoc : other_tty_bytes None (h_trace stc) = []) by (rewrite F8; exact Ho).
+        assert (Hatc : attaches (h_trace stc) = []) by (rewrite F9; exact Hat).
+        assert (Hstc : states (h_trace stc) = []) by (rewrite F10; exact Hst).
+        destruct (link_spec stc t id (lastn capacity (a_early a)) Hvc Htc F3 Hcc Hoc Hatc Hstc)
           as [st' (El & Hv' & Hc' & Hs' & Ht' & Hco' & Ha' & Hn' & Hb' & Ho' & Hat' & Hst' & Hsc')].
         rewrite El. cbn [bind]. eexists. split; [reflexivity|]. split.
-        -- unfold R. cbn [set_active set_console h_ring h_numbuf h_console h_tty h_active h_sink h_trace
+        -- unfold R. cbn [set_active h_ring h_numbuf h_console h_tty h_active h_sink h_trace
                           a_console a_tty a_active a_early a_later a_numbuf] in *.
-           rewrite Hlat, app_nil_r, Ha', Hn'. cbn [set_console h_active h_numbuf].
+           rewrite Hlat, app_nil_r, Ha', Hn', F5, F6.
            repeat split; try assumption; try (destruct Hv'; assumption); congruence.
-        -- exact Hsc'.
-      * cbn [bind]. eexists. split; [reflexivity|]. split; [|split; reflexivity].
-        unfold R. cbn [set_active set_console h_ring h_numbuf h_console h_tty h_active h_sink h_trace
-                       a_console a_tty a_active a_early a_later a_numbuf].
-        repeat split; try assumption; try (destruct Hv; assumption); congruence.
+        -- eapply same_calls_trans; [exact F7'|]. destruct Hsc' as [S1 S2]. split; [exact S1|exact S2].
+      * cbn [bind]. eexists. split; [reflexivity|]. split.
+        -- unfold R. cbn [set_active h_ring h_numbuf h_console h_tty h_active h_sink h_trace
+                          a_console a_tty a_active a_early a_later a_numbuf].
+           rewrite F1, F2, F3, F4, F5, F6, F8, F9, F10.
+           repeat split; try assumption; try (destruct Hv; assumption); congruence.
+        -- destruct F7' as [S1 S2]. split; [exact S1|exact S2].
   - (* terminal *)
     rewrite Ht. destruct (a_tty a) as [t|] eqn:Et.
     + cbn [bind]. eexists. split; [reflexivity|]. split; [|split; reflexivity]. apply Hsame; cbn; congruence.
@@ -221,7 +247,7 @@ Proof.
   - destruct (concat cs); intros H; inversion H; reflexivity.
 Qed.
 
-Lemma R_call st a e : (match e with EvProbe _ | EvInit _ => True | _ => False end) -> R st a -> R (log_event st e) a.
+Lemma R_call st a e : (match e with EvProbe _ | EvInit _ | EvSetLogo _ | EvSetFont _ => True | _ => False end) -> R st a -> R (log_event st e) a.
 Proof.
   intros He (Hv & Hl & Hnb & Hc & Ht & Hact & Hm). unfold R.
   cbn [log_event h_ring h_numbuf h_console h_tty h_active h_sink h_trace].
@@ -275,8 +301,8 @@ Proof.
     destruct (prefix_writes (concat cs) bap1 cs2) as [o2 bap2] eqn:Ew2.
     destruct (deliver_R (set_numbuf st4 nb2) _ o2 HR5) as [st6 [Ed6 [HR6 [Sp6 Si6]]]].
     change (h_sink (set_numbuf st4 nb2)) with (h_sink st4) in Ed6. rewrite Hsk4 in Ed6. rewrite Ed6. cbn [bind].
-    destruct (init_ok_R (d_id d) (p_kind p) st6 _ HR6) as [st7 [E7 [HR7 [Sp7 Si7]]]].
-    destruct (on_driver_init (d_id d) (p_kind p) st6) as [st6'| |] eqn:Eo; cbn [bind] in E7; try discriminate.
+    destruct (init_ok_R (d_id d) p st6 _ HR6) as [st7 [E7 [HR7 [Sp7 Si7]]]].
+    destruct (on_driver_init (d_id d) p st6) as [st6'| |] eqn:Eo; cbn [bind] in E7; try discriminate.
     inversion E7; subst st7. cbn [bind].
     eexists _, _, _. split; [reflexivity|]. split; [reflexivity|]. split; [exact HR7|].
     cbn [set_numbuf h_trace] in Sp6, Si6. split; congruence.
@@ -323,9 +349,9 @@ Proof.
   split; [exact G1|]. split; [exact G2|]. split; [exact HR3|]. split; congruence.
 Qed.
 
-Lemma R_init : R init_hal init_abs.
+Lemma R_init b : R (set_logo_off init_hal b) init_abs.
 Proof.
-  unfold R, init_hal, init_abs. cbn. repeat split; try reflexivity.
+  unfold R, init_hal, init_abs, set_logo_off. cbn. repeat split; try reflexivity.
 Qed.
 
 (** ---- who becomes active (facts about the sink-agnostic description) ---- *)
@@ -430,15 +456,15 @@ Proof.
 Qed.
 
 (** ---- the whole bring-up ---- *)
-Lemma bringup pre ds post :
+Lemma bringup b pre ds post :
   exists st a,
-    scenario pre ds post init_hal = Ok st /\ abs_scenario pre ds post init_abs = Ok a /\ R st a /\
+    scenario pre ds post (set_logo_off init_hal b) = Ok st /\ abs_scenario pre ds post init_abs = Ok a /\ R st a /\
     probes (h_trace st) = map d_id ds /\
     inits (h_trace st) = map d_id (filter (fun d => is_some (d_probe d)) ds) /\
     a_console a = first_id is_console ds /\ a_tty a = first_id is_tty ds /\
     a_active a = map d_id (filter init_ok ds).
 Proof.
-  destruct (scenario_R pre ds post init_hal init_abs R_init) as [st [a [E1 [E2 [HR [Hp Hi]]]]]].
+  destruct (scenario_R pre ds post (set_logo_off init_hal b) init_abs (R_init b)) as [st [a [E1 [E2 [HR [Hp Hi]]]]]].
   exists st, a. split; [exact E1|]. split; [exact E2|]. split; [exact HR|].
   split; [exact Hp|]. split; [exact Hi|]. apply (scenario_core pre ds post a E2).
 Qed.
@@ -447,25 +473,25 @@ Lemma ring_boot : valid empty_ring /\ contents empty_ring = [] /\ capacity = N.t
 Proof. split; [exact valid_empty|]. split; reflexivity. Qed.
 
 Lemma probe_order :
-  forall (registered sorted_list : list driver) (pre post : list logop),
+  forall (logo_off : bool) (registered sorted_list : list driver) (pre post : list logop),
     Permutation registered sorted_list ->
     Sorted (fun a b => (d_order a <= d_order b)%Z) sorted_list ->
     exists st probed,
-      scenario pre sorted_list post init_hal = Ok st /\
+      scenario pre sorted_list post (set_logo_off init_hal logo_off) = Ok st /\
       probes (h_trace st) = map d_id probed /\
       Permutation registered probed /\
       Sorted (fun a b => (d_order a <= d_order b)%Z) probed /\
       inits (h_trace st) = map d_id (filter (fun d => is_some (d_probe d)) probed).
 Proof.
-  intros registered sorted_list pre post Hp Hs.
-  destruct (bringup pre sorted_list post) as [st [a (E1 & _ & _ & Hpr & Hin & _)]].
+  intros logo_off registered sorted_list pre post Hp Hs.
+  destruct (bringup logo_off pre sorted_list post) as [st [a (E1 & _ & _ & Hpr & Hin & _)]].
   exists st, sorted_list. auto.
 Qed.
 
 Lemma bringup_full :
-  forall (pre : list logop) (sorted_list : list driver) (post : list logop),
+  forall (logo_off : bool) (pre : list logop) (sorted_list : list driver) (post : list logop),
     exists st a,
-      scenario pre sorted_list post init_hal = Ok st /\
+      scenario pre sorted_list post (set_logo_off init_hal logo_off) = Ok st /\
       abs_scenario pre sorted_list post init_abs = Ok a /\
       h_console st = first_id is_console sorted_list /\
       h_tty st = first_id is_tty sorted_list /\
@@ -481,21 +507,21 @@ Lemma bringup_full :
           other_tty_bytes None (h_trace st) = [] /\ attaches (h_trace st) = [] /\ states (h_trace st) = []
       end.
 Proof.
-  intros pre ds post.
-  destruct (bringup pre ds post) as [st [a (E1 & E2 & HR & _ & _ & Hc & Ht & Ha)]].
+  intros logo_off pre ds post.
+  destruct (bringup logo_off pre ds post) as [st [a (E1 & E2 & HR & _ & _ & Hc & Ht & Ha)]].
   destruct HR as (_ & _ & _ & Rc & Rt & Ra & Rm).
   exists st, a. split; [exact E1|]. split; [exact E2|].
   rewrite Rc, Rt, Ra. split; [exact Hc|]. split; [exact Ht|]. split; [exact Ha|]. exact Rm.
 Qed.
 
 Lemma failed_never_active_full :
-  forall (pre : list logop) (sorted_list : list driver) (post : list logop) (st : hal) (d : driver),
+  forall (logo_off : bool) (pre : list logop) (sorted_list : list driver) (post : list logop) (st : hal) (d : driver),
     NoDup (map d_id sorted_list) -> In d sorted_list -> init_ok d = false ->
-    scenario pre sorted_list post init_hal = Ok st ->
+    scenario pre sorted_list post (set_logo_off init_hal logo_off) = Ok st ->
     ~ In (d_id d) (h_active st) /\ h_console st <> Some (d_id d) /\ h_tty st <> Some (d_id d).
 Proof.
-  intros pre ds post st d Hnd Hin Hf Hrun.
-  destruct (bringup_full pre ds post) as [st' [a (E1 & _ & Hc & Ht & Ha & _)]].
+  intros logo_off pre ds post st d Hnd Hin Hf Hrun.
+  destruct (bringup_full logo_off pre ds post) as [st' [a (E1 & _ & Hc & Ht & Ha & _)]].
   rewrite Hrun in E1. inversion E1; subst st'.
   assert (Hfirst : forall f, (forall x, f x = true -> init_ok x = true) -> first_id f ds <> Some (d_id d)).
   { intros f Hfx. unfold first_id. destruct (find f ds) as [x|] eqn:Ef; [|discriminate].
